@@ -436,7 +436,7 @@ func describe(v ssa.Value, seen map[ssa.Value]bool, depth int) string {
 	d := func(x ssa.Value) string { return describe(x, seen, depth+1) }
 	switch x := v.(type) {
 	case *ssa.Parameter:
-		return "p:" + x.Name()
+		return "p:" + ParamName(x)
 	case *ssa.FreeVar:
 		return "fv:" + x.Name()
 	case *ssa.Const:
